@@ -249,6 +249,9 @@ fn check(c: &Case, built: &Built) -> Verdict {
     }
     if let Vocab::Explicit { .. } = c.vocab {
         labels.push("vocab:explicit");
+        if let Vocab::Explicit { base, .. } = c.vocab {
+            labels.push(if base >= 65_000 { "vocab:ids>=2^16" } else { "vocab:ids-small" });
+        }
     }
     if built.same_product_twice {
         labels.push("two-rules-same-product");
@@ -386,7 +389,13 @@ fn rcase() -> impl Strategy<Value = RCase> {
         any::<bool>(),
         prop_oneof![
             1 => Just(Vocab::Auto),
-            1 => (0u32..2000, 1u8..4, any::<bool>()).prop_map(|(base, step, reversed)| Vocab::Explicit { base, step, reversed }),
+            1 => (
+                // ids are arbitrary u32: small, straddling 2^16, above 2^24, and close to u32::MAX (no overflow: at most 296 entries * step 255 < 80000)
+                prop_oneof![3 => 0u32..2000, 2 => 65_000u32..66_000, 1 => (1u32 << 24)..(1u32 << 24) + 2000, 1 => (1u32 << 31) - 300..(1u32 << 31) + 300, 1 => u32::MAX - 100_000..u32::MAX - 80_000],
+                prop_oneof![4 => 1u8..4, 1 => Just(64u8), 1 => Just(255u8)],
+                any::<bool>(),
+            )
+                .prop_map(|(base, step, reversed)| Vocab::Explicit { base, step, reversed }),
         ],
     )
         .prop_map(|(corpus, picks, rotate, text, suffix, vocab)| RCase {
@@ -444,7 +453,7 @@ fn main() {
          letters or products of other rules of the table, in every order; texts = every string over {a,b,c} up to length 6 \
          (quick) / 7 (thorough); auto-built vocabulary. random-tables: merge table obtained by simulated BPE training (<=40 \
          picks) on 1-3 generated words over {a,b,c,d,space,é} (optionally rotated), text <=24 chars with runs up to 9, with/without \
-         end_of_word_suffix '</w>', auto-built or explicit vocabulary (ids base+step*n, optionally reversed). Non-trivial = the \
+         end_of_word_suffix '</w>', auto-built or explicit vocabulary (ids base+step*n, optionally reversed; base in 0..2000, around 2^16, 2^24, 2^31 or near u32::MAX; step 1..3, 64 or 255). Non-trivial = the \
          reference applies at least one merge round to the text. Distinct = distinct Debug rendering of the case.",
     );
     ck.assume("merge tables contain no duplicate (a,b) pair (real trainers never emit one; rten, like HF tokenizers, lets the later duplicate override the rank)");
